@@ -1,4 +1,4 @@
-(** Model of src/epd5in65f/mod.rs — STUB, not yet transcribed. *)
+(** Model of src/epd5in65f/mod.rs (7-colour ACeP, OctColor). *)
 From Coq Require Import List NArith Bool.
 From EPD Require Import Iface Ops Drv.Luts.
 Import ListNotations.
@@ -9,10 +9,100 @@ Module Epd5in65f.
 Definition WIDTH : N := 600.
 Definition HEIGHT : N := 448.
 
-Definition init : M unit := ret tt.
+(** OctColor::get_nibble = the colour code; OctColor::colors_byte (u8 arithmetic) *)
+Definition get_nibble (c : N) : N := c.
+Definition colors_byte (a b : N) : N := bor (u8 (shl (get_nibble a) 4)) (get_nibble b).
 
-Definition exec (k : N) (o : op) : option (M rval) := None.
+Definition wait_until_idle : M unit := wait_idle true.
+Definition wait_busy_low : M unit := wait_idle false.
+
+(** private helpers [command], [send_data] of the driver *)
+Definition command (c : N) : M unit := cmd c.
+Definition send_data (l : list N) : M unit := data l.
+
+Definition send_resolution : M unit :=
+  let w := WIDTH in
+  let h := HEIGHT in
+  command 0x61 ;;
+  send_data [u8 (shr w 8)] ;;
+  send_data [u8 w] ;;
+  send_data [u8 (shr h 8)] ;;
+  send_data [u8 h].
+
+Definition update_vcom : M unit :=
+  s <- get ;;
+  let bg_color := u8 (shl (band (get_nibble (bg s)) 7) 5) in
+  cmd_with_data 0x50 [bor 0x17 bg_color].
+
+Definition init : M unit :=
+  reset 10000 2000 ;;
+  cmd_with_data 0x00 [0xEF; 0x08] ;;
+  cmd_with_data 0x01 [0x37; 0x00; 0x23; 0x23] ;;
+  cmd_with_data 0x03 [0x00] ;;
+  cmd_with_data 0x06 [0xC7; 0xC7; 0x1D] ;;
+  cmd_with_data 0x30 [0x3C] ;;
+  cmd_with_data 0x40 [0x00] ;;
+  update_vcom ;;
+  cmd_with_data 0x60 [0x22] ;;
+  send_resolution ;;
+  cmd_with_data 0xE3 [0xAA] ;;
+  delay_us 100000 ;;
+  update_vcom.
+
+Definition sleep : M unit :=
+  cmd_with_data 0x07 [0xA5].
+
+Definition update_frame (k len : N) : M unit :=
+  wait_until_idle ;;
+  update_vcom ;;
+  send_resolution ;;
+  cmd_with_data_e 0x10 (DArg k 0 0 len).
+
+Definition update_partial_frame (k len x y w h : N) : M unit := panic.
+
+Definition display_frame : M unit :=
+  wait_until_idle ;;
+  command 0x04 ;;
+  wait_until_idle ;;
+  command 0x12 ;;
+  wait_until_idle ;;
+  command 0x02 ;;
+  wait_busy_low.
+
+Definition update_and_display_frame (k len : N) : M unit :=
+  update_frame k len ;;
+  display_frame.
+
+Definition clear_frame : M unit :=
+  s <- get ;;
+  let bg_ := colors_byte (bg s) (bg s) in
+  wait_until_idle ;;
+  update_vcom ;;
+  send_resolution ;;
+  command 0x10 ;;
+  data_x_times bg_ (WIDTH * HEIGHT / 2) ;;
+  display_frame.
+
+Definition set_lut (r : option N) : M unit := panic.
+
+Definition exec (k : N) (o : op) : option (M rval) :=
+  match o with
+  | OSleep => unit_ sleep
+  | OWakeUp => unit_ init
+  | OSetBg c => unit_ (modify (set_bg c))
+  | OGetBg => Some (s <- get ;; ret (RColor (bg s)))
+  | OWidth => Some (ret (RNum WIDTH))
+  | OHeight => Some (ret (RNum HEIGHT))
+  | OUpdateFrame len => unit_ (update_frame k len)
+  | OUpdatePartial len x y w h => unit_ (update_partial_frame k len x y w h)
+  | ODisplay => unit_ display_frame
+  | OUpdateAndDisplay len => unit_ (update_and_display_frame k len)
+  | OClear => unit_ clear_frame
+  | OSetLut r => unit_ (set_lut r)
+  | OWaitIdle => unit_ wait_until_idle
+  | _ => None
+  end.
 
 Definition drv (ft : feat) : driver :=
-  mkDriver WIDTH HEIGHT true d0 init exec.
+  mkDriver WIDTH HEIGHT true (mkD cWhite 0 false false 0 None) init exec.
 End Epd5in65f.
